@@ -29,11 +29,16 @@ func New(config Configuration, statsdClient *statsd.Client) (*SSOProxy, error) {
 
 	hostRouter := hostmux.NewRouter()
 	for _, upstreamConfig := range config.UpstreamConfigs.upstreamConfigs {
+		// the provider of an upstream is the one its own (resolved) `provider_slug` names
+		upstreamConfigs := config.UpstreamConfigs
+		if upstreamConfig.ProviderSlug != "" {
+			upstreamConfigs.DefaultConfig.ProviderSlug = upstreamConfig.ProviderSlug
+		}
 		provider, err := newProvider(
 			config.ClientConfig,
 			config.ProviderConfig,
 			config.SessionConfig,
-			config.UpstreamConfigs,
+			upstreamConfigs,
 			statsdClient,
 		)
 		if err != nil {
